@@ -65,8 +65,20 @@ Lemma lmtp_shutdown_returns s :
   snd (sstep_srv SvcLMTP s Shutdown) = [OShutReturned] /\ inflight (fst (sstep_srv SvcLMTP s Shutdown)) = inflight s.
 Proof. destruct s as [l c n w p]. cbn. intros -> ->. cbn. split; reflexivity. Qed.
 
-Lemma lmtp_double_shutdown_panics :
-  snd (srv_run SvcLMTP srv_init [Shutdown; Shutdown]) = [OShutReturned; OShutPanic].
+(** a second (third, ...) lmtp.Shutdown returns and changes nothing *)
+Lemma lmtp_shutdown_idempotent s :
+  panicked s = false -> chan_closed s = true -> sstep_srv SvcLMTP s Shutdown = (s, [OShutReturned]).
+Proof. destruct s as [l c n w p]. cbn. intros -> ->. reflexivity. Qed.
+
+Lemma never_panics k h : forall s, panicked s = false -> panicked (fst (srv_run k s h)) = false.
+Proof.
+  induction h as [|e h IH]; intros s H; [exact H|].
+  rewrite srv_run_cons. cbn [fst]. apply IH.
+  destruct s as [l c n w p]. cbn in H. subst p. destruct k, e, l, c, w, n as [|[|n]]; reflexivity.
+Qed.
+
+Lemma lmtp_double_shutdown_returns :
+  snd (srv_run SvcLMTP srv_init [Shutdown; Shutdown]) = [OShutReturned; OShutReturned].
 Proof. vm_compute. reflexivity. Qed.
 
 (** (c3) sasl.Shutdown returns exactly when the connections in flight have ended *)
@@ -94,7 +106,7 @@ Proof.
     right. cbn. apply (IH (S m)); [lia | exact Hs | cbn in Hc; lia].
 Qed.
 
-Lemma sasl_blocked_while_sessions_live h : forall n,
+Lemma sasl_waits_for_sessions h : forall n,
   0 < n -> existsb is_end h = false ->
   ~ In OShutReturned (snd (srv_run SvcSASL (blocked n) h)) /\ fst (srv_run SvcSASL (blocked n) h) = blocked n.
 Proof.
